@@ -351,8 +351,10 @@ func replayOne(bi int, b behaviour, uidx0 bool, dir string, selftest bool, res *
 		}
 	}()
 	for si, st := range b.Steps {
-		if selftest && st.K == "commit" && st.Out == "ok" && len(st.Tbl) > 0 {
-			st.Tbl = st.Tbl[1:] // binding self-test: corrupt one expected value per behaviour; the replay must report it
+		if selftest && len(st.Tbl) > 0 && ((st.K == "commit" && st.Out == "ok") || st.Out == "err") {
+			// binding self-test: corrupt one expected value per behaviour (the committed table after a successful
+			// COMMIT or after a failed statement); the replay must report it
+			st.Tbl = st.Tbl[1:]
 			selftest = false
 		}
 		text, _ := sqlOf2(st)
